@@ -179,4 +179,18 @@ CLAIMS["C11"] = {
   "technique": "Coq proof (frame property of copy-then-edit hooks over an object store, for all edit sequences) + AST translator (copy dominates every in-place edit) + identity-snapshot differential testing",
   "design_ref": "DESIGN.md 5/C11"}
 
+CLAIMS["C16"] = {
+  "text": "PARTIAL. Theorem C16_json_dumps_total (Props/C16.v): the JSON converter is modelled as the plain Converter plus a context-free post-processing of its unstructured form (Model/Preconf.v jsonify: "
+          "bytes -> base85 text, abc.Set -> list); for every environment, nested type, value of the type and strategy, whenever the mapping keys of the unstructured form are atoms (the documented limit of "
+          "JSON object keys) what is handed to json.dumps lies inside the data model json.dumps accepts (jsonable) -- 'dumps never fails' for the json format, on top of C03's theorem. No theorem can state "
+          "loads(dumps(x, T), T) == x: it would need the serialisation library. Decided on every run by the PRE lane instead, for the three libraries importable here (json, pyyaml, msgspec; bson, "
+          "orjson, ujson, msgpack, cbor2, tomlkit are absent and reported as not present): dumps succeeds and the round trip is deeply equal on generated worlds incl. bytes, datetime, date, sets, "
+          "enums, literals, non-string mapping keys, recursive classes; the model's jsonify equals the real JSON converter's unstructured form and the model's json_rt equals json.loads(json.dumps(.)) on "
+          "every case; user hooks registered on such a converter are used at top level, in a list, inside an attrs class and inside a dataclass (precedence itself: C07).",
+  "note": TB_CONV + " The base85 codec and json's key coercion are oracles (tables computed with the real functions). pyyaml and msgspec have no model: oracle only. Genuine defects found: F28 (msgspec converter handed "
+          "every dataclass to msgspec: user hooks bypassed, private attributes of nested attrs classes dropped) -- fixed in /repo d4e1417; F29 (msgspec converter cannot create the hook of a self-referential "
+          "class: RecursionError) -- open known finding; F19 (bool-keyed mappings in text formats) -- treated as outside the documented limits.",
+  "technique": "Coq proof (encodability of the post-processed unstructured form, on top of the primitive-output theorem) + differential correspondence of the JSON layer + round-trip and user-hook oracles on the real libraries",
+  "design_ref": "DESIGN.md 5/C16"}
+
 NOT_APPLICABLE = {}
